@@ -9,7 +9,7 @@ from tools import lib, cdc
 PROP = "C16"
 PROPS_FILE = "Props/C16.v"
 HEADER = """From Coq Require Import ZArith List Bool.
-From PV Require Import Base.Outcome Circuit.Tree Circuit.Printer Circuit.Ident.
+From PV Require Import Base.Outcome Circuit.Tree Circuit.Printer Circuit.Printer_facts Circuit.Ident Circuit.Ident_facts.
 Import ListNotations.
 Open Scope N_scope.
 Definition F := 200%nat.
@@ -42,6 +42,9 @@ Definition obs_eqb (a b : obsv) : bool :=
    from the OBSERVED order are the observed ones *)
 Definition ident_holds (c : iconn) (o : obsv) : bool :=
   let all := items_conn F c in
+  (* the hypotheses of C16_names_injective on the state the implementation reached: no stored label is all digits, no symbol
+     contains an underscore (what set_label and the registry enforce) *)
+  forallb (fun e => match ie_label e with [] => true | l => negb (forallb is_dchar l) end && nounder (ie_sym e)) (elems F c) &&
   nat_list_eqb (sort_nat (ob_order o)) (sort_nat (all_uids_conn F c)) &&
   let es := flat_map (fun u => match find_elt u (elems F c) with Some e => [e] | None => [] end) (ob_order o) in
   Nat.eqb (length es) (length (ob_order o)) &&
@@ -141,6 +144,22 @@ def run(rep, tier, seed, tr_errors):
             for el in c.get_elements(recursive=True):
                 if rng.random() < 0.6:
                     el.set_label("")
+        if rng.random() < 0.5:
+            # labels that would imitate an automatic name (digits, also padded with white space): set_label must refuse them
+            # or the names must stay distinct all the same; whatever label the element then reports goes into the model
+            for el in c.get_elements(recursive=True):
+                # a label that turns one parameter's variable name into another's (Y + "_B" = the key Y_B)
+                keys = list(el.get_values().keys())
+                sfx = [k2[len(k1) + 1:] for k1 in keys for k2 in keys if k2.startswith(k1 + "_")]
+                if sfx and rng.random() < 0.5:
+                    el.set_label(rng.choice(sfx))
+                    continue
+                if rng.random() < 0.4:
+                    k = str(rng.randint(0, 6))
+                    try:
+                        el.set_label(rng.choice([k, " " + k, k + " ", "\t" + k + "\n", "0" + k, k + "a"]))
+                    except ValueError:
+                        pass
         uids = {}
         t = build_lit(c._elements, uids, ctx)
         try:
